@@ -159,6 +159,34 @@ func buildGSI(t *Table, gsiInput *types.GlobalSecondaryIndex) (*index, error) {
 	return i, nil
 }
 
+// UpdateIndexes applies the attribute definitions and the index changes of one UpdateTable request in order;
+// when one of them fails the table keeps the definitions and the indexes it had before the request
+func (t *Table) UpdateIndexes(attrs []*types.AttributeDefinition, changes []*types.GlobalSecondaryIndexUpdate) error {
+	attributesDef := make(map[string]string, len(t.AttributesDef))
+	for name, typ := range t.AttributesDef {
+		attributesDef[name] = typ
+	}
+
+	indexes := make(map[string]*index, len(t.Indexes))
+	for name, i := range t.Indexes {
+		indexes[name] = i
+	}
+
+	if err := t.UpdateAttributeDefinition(attrs); err != nil {
+		return err
+	}
+
+	for _, change := range changes {
+		if err := t.ApplyIndexChange(change); err != nil {
+			t.AttributesDef, t.Indexes = attributesDef, indexes
+
+			return err
+		}
+	}
+
+	return nil
+}
+
 // ApplyIndexChange applies the index change
 func (t *Table) ApplyIndexChange(change *types.GlobalSecondaryIndexUpdate) error {
 	switch {
